@@ -164,6 +164,34 @@ Theorem C03_no_sharing_complete_needs_roots_parentless :
 Proof. exact c03u_complete_needs_roots_parentless. Qed.
 Print Assumptions C03_no_sharing_complete_needs_roots_parentless.
 
+(* SOUND FOR ALL TABLES, sharing providers included (Proofs/C03w.v): whatever the code model returns as a candidate list
+   (not KeyError / order-dependent: separate findings) is a list of combinations of the specification.  The unsuffixed
+   group may take its classes partly from the anchor tree and partly from sharing providers associated through an
+   aggregate with a provider of the tree; a suffixed group may be served by a sharing provider, offered under every
+   accepted anchor it shares with.  Besides the hypotheses of C03_no_sharing_sound (minus no_sharing) one more: aggs_wf -
+   every aggregate association names an existing provider; it is part of the invariant RI, hence holds in every reachable
+   state (C03_reachable_aggs_wf), and without it the statement is false on an unreachable table (C03_sound_needs_aggs_wf).
+   The two refutations below are about OMITTED candidates: soundness survives sharing, completeness does not. *)
+From PV Require Import Proofs.C03w.
+Theorem C03_sound : forall v q d a s,
+  rps_wf d -> parentless_root d -> caps_nonneg d -> aggs_wf d -> un_rcs_nodup q ->
+  candidates v q d = COk a s ->
+  forall c, In c a -> exists c', In c' (map (creq_view v) (spec_candidates v q d)) /\ same_creq c c' = true.
+Proof. exact c03_sound. Qed.
+Print Assumptions C03_sound.
+
+Theorem C03_reachable_aggs_wf : forall cf d, reachable cf d -> aggs_wf d.
+Proof. exact reachable_aggs_wf. Qed.
+Print Assumptions C03_reachable_aggs_wf.
+
+Theorem C03_sound_needs_aggs_wf :
+  exists v q d,
+    rps_wf d /\ parentless_root d /\ caps_nonneg d /\ un_rcs_nodup q /\ ~ aggs_wf d /\ ~ RI d /\
+    (exists s, candidates v q d = COk [mkCreq (-1) [mkRreq 1 0 1; mkRreq 2 2 1] [(1, [1]); (2, [2])]] s) /\
+    spec_candidates v q d = [].
+Proof. exact c03w_needs_aggs_wf. Qed.
+Print Assumptions C03_sound_needs_aggs_wf.
+
 (* REFUTED: the faithful model omits valid candidates *)
 (* 1. a sharing provider reachable from several anchors: the per-group result is a SET of allocation requests
       whose equality ignores the anchor, so one anchor survives and merges under the others are lost *)
